@@ -9,9 +9,13 @@
 
    2. The rebuild of the cache a command performs when it starts (ProductStack.fromCache ->
       refreshFromDatabase -> save): the declarations of the database are added one by one to the
-      stack in memory; with autosave off (the code as it is) only the final save persists, one
-      complete file per loaded flavor; with autosave on every addition persists the file of its
-      flavor - complete-looking, newer than the database, partial.  A later reader believes the
+      stack in memory; every addition notes its flavor as updated (ProductStack.addProduct ->
+      _flavorsUpdated), then the loaded flavors are noted too (fromCache); with autosave off (the
+      code as it is) only the final save persists, one complete file per noted flavor - EVERY
+      flavor the database holds a declaration of, in the order the walk of the database met them,
+      then the loaded flavors it holds none of, and not only the loaded ones; with autosave on
+      every addition persists the file of its flavor - complete-looking, newer than the database,
+      partial - and un-notes it, so that the final save writes the loaded flavors.  A later reader believes the
       cache when a file newer than the database exists for every flavor it loads and the product
       names of the files are those of the database (ProductStack._tryCache); otherwise it reads
       the database.
@@ -70,8 +74,23 @@ Fixpoint partial_saves (seen rest : list prow) : list (str * cfile) :=
 Definition final_saves (fls : list str) (db : list prow) : list (str * cfile) :=
   map (fun fl => (fl, (true, rows_of fl db))) fls.
 
+Definition mem_str (x : str) (l : list str) : bool := existsb (str_eqb x) l.
+
+(* ProductStack.updated: a flavor is appended when it is not there yet *)
+Fixpoint first_seen (seen l : list str) : list str :=
+  match l with
+  | [] => []
+  | x :: r => if mem_str x seen then first_seen seen r else x :: first_seen (x :: seen) r
+  end.
+
+(* the flavors the final save of the rebuild writes with autosave off: those of the declarations in the
+   order refreshFromDatabase added them (db is in that order), then the loaded ones not met among them *)
+Definition saved_flavors (fls : list str) (db : list prow) : list str :=
+  first_seen [] (map r_flavor db ++ fls).
+
 Definition persists (autosave : bool) (fls : list str) (db : list prow) : list (str * cfile) :=
-  (if autosave then partial_saves [] db else []) ++ final_saves fls db.
+  if autosave then partial_saves [] db ++ final_saves fls db
+  else final_saves (saved_flavors fls db) db.
 
 (* each persist is one rename (section 1 and CrashXdev): a crash leaves the first k of them *)
 Definition crash_caches (autosave : bool) (fls : list str) (db : list prow) (cs : caches) (k : nat) : caches :=
@@ -80,7 +99,6 @@ Definition crash_caches (autosave : bool) (fls : list str) (db : list prow) (cs 
 Definition cache_rows (cs : caches) (fl : str) : option (list (str * str)) :=
   match alookup fl cs with Some (true, rows) => Some rows | _ => None end.
 
-Definition mem_str (x : str) (l : list str) : bool := existsb (str_eqb x) l.
 Definition same_names (a b : list str) : bool :=
   forallb (fun x => mem_str x b) a && forallb (fun x => mem_str x a) b.
 
